@@ -7,11 +7,11 @@
 package sym
 
 import (
-	"runtime"
 	"encoding/json"
 	"fmt"
 	"math"
 	"os"
+	"runtime"
 	"strconv"
 	"sync"
 	"time"
@@ -30,6 +30,7 @@ var (
 	loaded     bool
 	Failures   []string
 	faultCount int
+	counters   = map[string]int{}
 )
 
 const staleNaN uint64 = 0x7ff0000000000002
@@ -51,7 +52,7 @@ func load() {
 }
 
 // Reset clears recorded failures (used by replay tests).
-func Reset() { mu.Lock(); Failures = nil; faultCount = 0; mu.Unlock() }
+func Reset() { mu.Lock(); Failures = nil; faultCount = 0; counters = map[string]int{}; mu.Unlock() }
 
 func input(name string) (string, bool) {
 	mu.Lock()
@@ -127,6 +128,9 @@ func Fault(site string) bool {
 	name := fmt.Sprintf("fault#%d:%s", faultCount, site)
 	faultCount++
 	v := rp.Choices[name]
+	if v == 1 {
+		counters["faults-fired"]++
+	}
 	mu.Unlock()
 	return v == 1
 }
@@ -145,20 +149,26 @@ func Assert(site string, c bool) {
 	}
 }
 
-func Known(id string, region bool)          {}
-func KnownEvent(id string, pattern string)  {}
-func Reached(site string)                   {}
-func Stop()                                 {}
-func Observe(name string, v any)            {}
-func Log(format string, args ...any)        {}
-func CheckLeaks()                           {}
-func Domain(n int)                          {}
-func Yield()                                { runtime.Gosched() }
-func PoolNondet()                           {}
-func SetGOMAXPROCS(n int)                   {}
-func ReadOnly(name string, p any)           {}
-func Counter(name string) int               { return 0 }
-func Symbolic() bool                        { return false }
+func Known(id string, region bool)         {}
+func KnownEvent(id string, pattern string) {}
+func Reached(site string)                  {}
+func Stop()                                {}
+func Observe(name string, v any)           {}
+func Log(format string, args ...any)       {}
+func CheckLeaks()                          {}
+func Domain(n int)                         {}
+func Yield()                               { runtime.Gosched() }
+func PoolNondet()                          {}
+func SetGOMAXPROCS(n int)                  {}
+func ReadOnly(name string, p any)          {}
+
+// Counter reads an executor-maintained counter; natively only "faults-fired" is kept.
+func Counter(name string) int {
+	mu.Lock()
+	defer mu.Unlock()
+	return counters[name]
+}
+func Symbolic() bool { return false }
 
 func Tier(quick, thorough int) int {
 	mu.Lock()
@@ -234,5 +244,5 @@ func IteI(c bool, a, b int64) int64 {
 	return b
 }
 
-func TimeMs(ms int64) time.Time       { return time.UnixMilli(ms) }
-func DurMs(ms int64) time.Duration    { return time.Duration(ms) * time.Millisecond }
+func TimeMs(ms int64) time.Time    { return time.UnixMilli(ms) }
+func DurMs(ms int64) time.Duration { return time.Duration(ms) * time.Millisecond }
